@@ -2,9 +2,10 @@
 (* Model constants of the root specification: the WORLDS explored (cfg files cannot spell records).
    A configuration is written as a set of triples <<node, parameter, value>>; families of worlds vary one aspect
    of a run over a background B and are united.  Backgrounds:
-     Bg3   a, a/b (through recursion) fully mocked, k mocks its listed K1; default file name: ONE file per package
-           (three output files, the one of package a holds three mocks)
-     Bg5   the same with one file per interface and per entry (five output files)
+     Bg3   a, a/b (through recursion, a/b/c excluded) fully mocked, k mocks its listed K1; default file name: ONE file
+           per package (three output files, the one of package a holds three mocks);  Bg4: a/b/c included (four files)
+     Bg5   Bg3 with one file per interface and per entry (five output files);  Bg6: Bg4 likewise (six files)
+     BgS   a without recursion, one file per interface and entry (four files)
    Ill-formed worlds (two mocks of one file with the same struct name or different force-file-write: the statement
    leaves their outcome open) are filtered out.  Families are operators with parameters on purpose: TLC evaluates
    every zero-arity constant definition at start-up. *)
@@ -16,7 +17,7 @@ CfgOf(T) == [n \in {t[1] : t \in T} |->
 BaseLay == [cwd |-> <<"w">>, mode |-> "search_yml", cfgdir |-> <<"w">>, decoy |-> LY!NoDecoy]
 NoFp    == [point |-> "-", key |-> "-"]
 World(tag, shape, argv, lay, T, occ, fp, pf) ==
-  [tag |-> tag, shape |-> shape, argv |-> argv, lay |-> lay, cfg |-> CfgOf(T), occ |-> occ, fp |-> fp, pkgfault |-> pf, tagged |-> FALSE]
+  [tag |-> tag, shape |-> shape, argv |-> argv, lay |-> lay, cfg |-> CfgOf(T), occ |-> occ, fp |-> fp, pkgfault |-> pf, tagged |-> FALSE, cfgkind |-> "normal"]
 Run(tag, shape, T) == World(tag, shape, "run", BaseLay, T, {}, NoFp, "-")
 
 \* marker values: the text names the level that wrote it
@@ -33,6 +34,7 @@ SN(n) == CASE n = "env" -> <<Lit("V"), INm>>
            [] n = "root" -> <<Lit("R"), INm>>
            [] n = "a" -> <<Lit("P"), INm>>
            [] n = "k" -> <<Lit("Q"), INm>>
+           [] n = "ab" -> <<Lit("S"), INm>>
            [] n = "a.A1" -> <<Lit("I"), INm>>
            [] n = "a.A1.1" -> <<Lit("E1"), INm>>
            [] n = "a.A1.2" -> <<Lit("E2"), INm>>
@@ -42,8 +44,11 @@ Lv4 == {"root", "a", "a.A1", "a.A1.1"}
 E2   == {<<"a.A1.2", "structname", SN("a.A1.2")>>}                                  \* entry 2 always names itself
 PerI == {<<"root", "filename", <<Lit("m_"), INm, Lit(".go")>> >>}                    \* one file per interface ...
 PerE == PerI \cup {<<"a.A1.2", "filename", FN("a.A1.2")>>}                           \* ... and per entry
-Bg3  == {<<"a", "all", TRUE>>, <<"a", "recursive", TRUE>>} \cup E2
+Bg4  == {<<"a", "all", TRUE>>, <<"a", "recursive", TRUE>>} \cup E2             \* a, a/b, a/b/c, k: four files
+Bg3  == Bg4 \cup {<<"a", "exclude-subpkg-regex", <<"abc">> >>}                    \* a/b/c excluded: three files
 Bg5  == Bg3 \cup PerE
+Bg6  == Bg4 \cup PerE
+BgS  == {<<"a", "all", TRUE>>} \cup E2 \cup PerE                                  \* no recursion: files of a (3) and k (1)
 
 \* LEVELS: each of the two parameters at every subset of the four levels, the other one at each set of OtherSets
 Levels(OtherSets) ==
@@ -64,16 +69,59 @@ SelectW(Shapes, Incs, F) ==
      : sh \in Shapes, ra \in {"U", "T"}, pa \in {"U", "T", "F"}, inc \in Incs, exc \in {{}, {"A2"}}}
 
 \* RECURSIVE: recursive and exclude-subpkg-regex at root and package level
-Recur(RootExcl, F) ==
+Recur(RootExcl, F, L) ==
   {Run("recursive", "S1", {<<"root", "all", TRUE>>} \cup E2 \cup F
                           \cup (IF rr = "U" THEN {} ELSE {<<"root", "recursive", rr = "T">>})
                           \cup (IF pr = "U" THEN {} ELSE {<<"a", "recursive", pr = "T">>})
-                          \cup (IF rx THEN {<<"root", "exclude-subpkg-regex", <<"ab">> >>} ELSE {})
-                          \cup (IF px THEN {<<"a", "exclude-subpkg-regex", <<"ab">> >>} ELSE {}))
+                          \cup (IF rx THEN {<<"root", "exclude-subpkg-regex", L>>} ELSE {})
+                          \cup (IF px THEN {<<"a", "exclude-subpkg-regex", L>>} ELSE {}))
      : rr \in {"U", "T"}, pr \in {"U", "T", "F"}, rx \in RootExcl, px \in BOOLEAN}
 
-\* FS: pre-existing output files x force-file-write at root / package level
 FilesOf(B) == CFiles(Run("x", "S1", B))
+
+\* TWO RECURSION LEVELS with a/b written in `packages:` below a (shape S4): whose settings does a/b/c carry?  The
+\* struct-name markers of a (P..) and a/b (S..) travel with the settings into the names of the mocks of a/b/c.
+Recur2(F, RootRec) ==
+  {Run("recursive2", "S4", {<<"root", "all", TRUE>>, <<"a", "structname", SN("a")>>, <<"ab", "structname", SN("ab")>>} \cup F
+                           \cup (IF rr = "U" THEN {} ELSE {<<"root", "recursive", rr = "T">>})
+                           \cup (IF ar = "U" THEN {} ELSE {<<"a", "recursive", ar = "T">>})
+                           \cup (IF br = "U" THEN {} ELSE {<<"ab", "recursive", br = "T">>})
+                           \cup (CASE ex = "none" -> {} [] ex = "root-abc" -> {<<"root", "exclude-subpkg-regex", <<"abc">> >>}
+                                   [] ex = "ab-abc" -> {<<"ab", "exclude-subpkg-regex", <<"abc">> >>}))
+     : rr \in RootRec, ar \in {"U", "T"}, br \in {"U", "T", "F"}, ex \in {"none", "root-abc", "ab-abc"}}
+
+\* SCHEMA: custom file:// template whose schema requires template-data key "need" (a string), data accepted / rejected at
+\* file level (the package's map) and per mock (the entry's map); k keeps the built-in template, whose schema forbids the key
+TDv(k, v) == (k :> v)
+Schema(B) ==
+  {Run("schema", "S1", B \cup {<<"a", "template", "needkey">>} \cup D) :
+     D \in {{},
+            {<<"a", "template-data", TDv("need", "str")>>},
+            {<<"a.A1", "template-data", TDv("need", "str")>>},
+            {<<"a", "template-data", TDv("need", "str")>>, <<"a.A1.2", "template-data", TDv("need", "int")>>},
+            {<<"a", "template-data", TDv("need", "str")>>, <<"a.A1.1", "template-data", TDv("extra", "str")>>},
+            {<<"root", "template-data", TDv("need", "str")>>},
+            {<<"a", "template-data", TDv("need", "int")>>, <<"a.A1", "template-data", TDv("need", "str")>>}}}
+\* PER-FILE parameters (template, formatter, force-file-write, require-template-schema-exists) differing between the files of one run
+PerFile(B) ==
+  {World("perfile", "S1", "run", BaseLay, B \cup {<<"a", "template", "needkey">>, <<"a", "template-data", TDv("need", "str")>>} \cup x.M, x.occ, NoFp, "-") :
+     x \in {[M |-> {<<"k", "formatter", "gofmt">>}, occ |-> {}],
+            [M |-> {<<"k", "formatter", "nosuchfmt">>}, occ |-> {}],
+            [M |-> {<<"a.A1.2", "formatter", "noop">>, <<"k", "template", "matryer">>}, occ |-> {}],
+            [M |-> {<<"k", "template", "noschema">>, <<"k", "require-template-schema-exists", FALSE>>}, occ |-> {}],
+            [M |-> {<<"k", "template", "noschema">>}, occ |-> {}],
+            [M |-> {<<"a.A1.1", "template", "ok">>, <<"k.K1", "force-file-write", TRUE>>}, occ |-> FilesOf(B)],
+            [M |-> {<<"a.A1.1", "template", "ok">>, <<"a.A1.1", "force-file-write", TRUE>>, <<"root", "require-template-schema-exists", FALSE>>,
+                    <<"a", "require-template-schema-exists", TRUE>>}, occ |-> FilesOf(B)]}}
+
+\* CONFIG KINDS: an empty config file, a config file without `packages`
+CfgKinds ==
+  {[World("config-kind", "S1", argv, BaseLay, x.T, {}, NoFp, "-") EXCEPT !.cfgkind = x.kind] :
+     argv \in {"run", "showconfig"},
+     x \in {[kind |-> "empty", T |-> {}], [kind |-> "empty", T |-> {<<"env", "all", TRUE>>, <<"flag", "log-level", "debug">>}],
+            [kind |-> "nopackages", T |-> {<<"root", "all", TRUE>>, <<"root", "structname", SN("root")>>, <<"root", "recursive", TRUE>>}]}}
+
+\* FS: pre-existing output files x force-file-write at root / package level
 Force(v) == CASE v = "U" -> {} [] v = "rootT" -> {<<"root", "force-file-write", TRUE>>} [] v = "aT" -> {<<"a", "force-file-write", TRUE>>}
               [] v = "rootT-aF" -> {<<"root", "force-file-write", TRUE>>, <<"a", "force-file-write", FALSE>>}
 OneFile(S) == CHOOSE f \in S : \A g \in S : Len(f) <= Len(g)
@@ -118,7 +166,9 @@ Commands(B) ==
   \cup {World("command", "S1", "showconfig", BaseLay, x.T, {}, NoFp, "-") :
           x \in {[T |-> {<<"root", "all", TRUE>>, <<"root", "recursive", TRUE>>} \cup E2],
                  [T |-> B \cup {<<"a", "exclude-subpkg-regex", <<"ab">> >>}],
-                 [T |-> {<<"a", "recursive", TRUE>>, <<"env", "all", TRUE>>, <<"env", "structname", SN("env")>>} \cup E2]}}
+                 [T |-> {<<"a", "recursive", TRUE>>, <<"env", "all", TRUE>>, <<"env", "structname", SN("env")>>} \cup E2],
+                 [T |-> B \cup {<<"env", "structname", SN("env")>>, <<"env", "log-level", "debug">>, <<"flag", "log-level", "error">>,
+                               <<"env", "build-tags", "extra">>}]}}
 
 \* LOCATE: where the config file is and how it is found (Layout.tla), with a decoy that must not be used
 Lays(Modes, Cwds) == {l \in LY!AllLayouts : l.mode \in Modes /\ l.cwd \in Cwds /\ l.cfgdir \in {<< >>, <<"w">>} /\ l.mode # "search_both"
@@ -128,7 +178,7 @@ Locate(B, Modes, Cwds, Argvs) ==
 
 AllModes == LY!Modes \ {"search_both"}
 Quick == Levels({{}}) \cup CrossRef({{}, {"a.A1.1"}}) \cup SelectW({"S1", "S2"}, {{}, {"A1", "A2", "B1"}}, {})
-         \cup Recur({FALSE}, {}) \cup FsWorlds(Bg3, {{}, {OneFile(FilesOf(Bg3))}, FilesOf(Bg3)}) \cup Fault(Bg3) \cup Sources(Bg3) \cup BuildTags(Bg3)
+         \cup Recur({FALSE}, {}, <<"ab">>) \cup Recur2({}, {"U"}) \cup Schema(BgS) \cup PerFile(BgS) \cup CfgKinds \cup FsWorlds(Bg3, {{}, {OneFile(FilesOf(Bg3))}, FilesOf(Bg3)}) \cup Fault(Bg3) \cup Sources(Bg3) \cup BuildTags(Bg3)
          \cup Commands(Bg3) \cup Locate(Bg3, AllModes, {<<"w", "a">>}, {"run"})
          \cup Locate(Bg3, {"search_yml", "flag_rel", "env_abs", "flagenv_abs"}, {<<"w">>}, {"showconfig"})
 MCTiny     == {Run("tiny", "S1", Bg5)}
